@@ -40,7 +40,7 @@ func handleSetRange(params internal.HandlerFuncParams) ([]byte, error) {
 
 	if !keyExists {
 		// The key does not exist yet: create it with the given value.
-		if err = params.SetValues(params.Context, map[string]interface{}{key: newStr}); err != nil {
+		if err = params.SetValues(params.Context, map[string]interface{}{key: internal.AdaptValue(newStr)}); err != nil {
 			return nil, err
 		}
 		return []byte(fmt.Sprintf(":%d\r\n", len(newStr))), nil
@@ -54,7 +54,7 @@ func handleSetRange(params internal.HandlerFuncParams) ([]byte, error) {
 	// If the offset  >= length of the string, append the new string to the old one.
 	if offset >= len(str) {
 		newStr = str + newStr
-		if err = params.SetValues(params.Context, map[string]interface{}{key: newStr}); err != nil {
+		if err = params.SetValues(params.Context, map[string]interface{}{key: internal.AdaptValue(newStr)}); err != nil {
 			return nil, err
 		}
 		return []byte(fmt.Sprintf(":%d\r\n", len(newStr))), nil
@@ -63,7 +63,7 @@ func handleSetRange(params internal.HandlerFuncParams) ([]byte, error) {
 	// If the offset is < 0, prepend the new string to the old one.
 	if offset < 0 {
 		newStr = newStr + str
-		if err = params.SetValues(params.Context, map[string]interface{}{key: newStr}); err != nil {
+		if err = params.SetValues(params.Context, map[string]interface{}{key: internal.AdaptValue(newStr)}); err != nil {
 			return nil, err
 		}
 		return []byte(fmt.Sprintf(":%d\r\n", len(newStr))), nil
@@ -84,7 +84,7 @@ func handleSetRange(params internal.HandlerFuncParams) ([]byte, error) {
 		break
 	}
 
-	if err = params.SetValues(params.Context, map[string]interface{}{key: string(strBytes)}); err != nil {
+	if err = params.SetValues(params.Context, map[string]interface{}{key: internal.AdaptValue(string(strBytes))}); err != nil {
 		return nil, err
 	}
 
